@@ -50,6 +50,8 @@ import warnings
 from concurrent.futures import ProcessPoolExecutor
 
 from bounded._api import Bounded, REPLAY_HEADER
+from bounded import c14_refs
+from bounded import c14_multi          # families MI (several instances / classes, overlapping blocks) and RC
 
 
 def _header(**kw):
@@ -607,4 +609,6 @@ def run(tier, seed):
         B._seen[(clause, witness)]["count"] = count
     B.note("adaptive oracle: an assignment inside edit_constant or at class level may succeed or be refused "
            "(the statement only restricts changes *outside*); TypeError is demanded for valid values only")
+    c14_refs.extend(B, tier, seed)      # reference-valued assignments to constant / read-only parameters
+    c14_multi.extend(B, tier, seed, _pmap)      # several instances / classes, overlapping blocks; class-level re-assignment
     return B.result()
